@@ -172,6 +172,48 @@ pub fn run(ctx: &Ctx) -> CheckResult {
         c.name = format!("{} [env TRUTH_MAP_PATH=hostile-maps]", base.name);
         c.meta = json!({"stale": [p], "ignore_env": true, "variant": "env-insensitive"});
         w.judge(&c);
+        // (d) the same command spelled differently: long options, options before the script, the game
+        //     given as a bare number, `--opt=value`-free forms with repeated whitespace-free values
+        {
+            let a = &base.steps[0].argv;
+            let mut respelt: Vec<String> = vec![a[0].clone(), a[1].clone()];
+            let mut positional: Vec<String> = vec![];
+            let mut k = 2;
+            while k < a.len() {
+                let (long, takes) = match a[k].as_str() {
+                    "-g" => ("--game", true),
+                    "-o" => ("--output", true),
+                    "-m" => ("--map", true),
+                    "-i" => ("--image-source", true),
+                    x if x.starts_with("--output-") => (x, true),
+                    x if x.starts_with('-') => (x, false),
+                    _ => ("", false),
+                };
+                if long.is_empty() {
+                    positional.push(a[k].clone());
+                    k += 1;
+                } else if takes && k + 1 < a.len() {
+                    respelt.push(long.to_string());
+                    let mut v = a[k + 1].clone();
+                    if long == "--game" {
+                        v = v.trim_start_matches("th").trim_start_matches('0').to_string();
+                    }
+                    respelt.push(v);
+                    k += 2;
+                } else {
+                    respelt.push(long.to_string());
+                    k += 1;
+                }
+            }
+            respelt.extend(positional);
+            let mut c = base.clone();
+            let reference_argv = c.steps[0].argv.clone();
+            c.steps[0].argv = respelt;
+            c.oracle = "stale".into();
+            c.name = format!("{} [respelt: long options first, bare game number]", base.name);
+            c.meta = json!({"stale": [], "variant": "invocation-spelling", "reference_steps": [reference_argv]});
+            w.judge(&c);
+        }
         // (c)
         let argv = &base.steps[0].argv;
         let ms: Vec<String> = argv.iter().enumerate().filter(|(k, a)| *k > 0 && argv[*k - 1] == "-m" && a.starts_with("mapfile-")).map(|(_, a)| a.clone()).collect();
